@@ -29,6 +29,19 @@ def translMbxmlOp (op : String) (args : List String) : Option String :=
     let i ← i.toInt?
     let n ← n.toInt?
     some (out (fun (b, j) => s!"{sBytes b} {j}") (Transl.Mbxml.read_opaque_defined_size d i n))
+  | "t.mb.wuint", [v] => do
+    let v ← v.toInt?
+    some (out sBytes (Transl.Mbxml.write_uintvar v))
+  | "t.mb.wsint", [v, nz] => do
+    let v ← v.toInt?
+    some (out sBytes (Transl.Mbxml.write_sintvar v (nz == "1")))
+  | "t.mb.wsint1", [v] => do
+    let v ← v.toInt?
+    some (out sBytes (Transl.Mbxml.write_sintvar v))
+  | "t.mb.wfrac", [d, p] => do
+    let d ← d.toInt?
+    let p ← p.toInt?
+    some (out sBytes (Transl.Mbxml.write_fraction d p))
   | _, _ => none
 
 end Dmr.Driver
